@@ -266,14 +266,16 @@ let handle_seq c =
   let ord (b : (bytes * bytes) list) =
     let pos n = match find_index (fun x -> x = n) !listing with Some i -> i | None -> max_int in
     List.stable_sort (fun (n1, _) (n2, _) -> Stdlib.compare (pos n1) (pos n2)) b in
+  let pos = [true; true; false; true; true; true; true; true] in (* the stray directories come early in the walk *)
   let st = ref ws_empty in
-  let dostep op = let (st', resp) = step enc dec proj ord iter_id lt_sem lt_go cfg !st op in st := st'; resp in
+  let dostep op = let (st', resp) = step enc dec proj ord pos iter_id lt_sem lt_go cfg !st op in st := st'; resp in
   let merged_before : (bytes, unit) Hashtbl.t = Hashtbl.create 8 in
   let show_reps l = clip (String.concat " " (List.map show_report l)) in
   for opi = 1 to nops do
     match next c with
     | "put" -> let n = next_bytes c in let d = next_bytes c in ignore (dostep (OpPut (n, d)))
     | "del" -> let n = next_bytes c in ignore (dostep (OpDel n))
+    | "stray" -> let n = next_bytes c in ignore (dostep (OpStray n))
     | "merge" ->
       let date = next_bytes c in
       let lst = next_blist c in
@@ -290,7 +292,7 @@ let handle_seq c =
       let read_reps = if rtag = "read-ok" then next_list c next_report else [] in
       listing := lst;
       (* the model's view of what is stored for the day *)
-      let stored = day_objects ord !st.ws_upload date in
+      let stored = day_objects ord pos !st date in
       let names_model = List.sort Stdlib.compare (List.map fst (List.filter (fun (n, _) -> has_prefix n date) !st.ws_upload)) in
       if names_model <> List.sort Stdlib.compare lst then
         diff "seq-listing" ~model:(String.concat "," (List.map string_of_bytes names_model))
@@ -383,6 +385,27 @@ let handle kind c =
        if read_tag <> "read-ok" then diff "read-merged" ~model:"ok" ~impl:read_tag
        else check_eq "read-merged-reports" (fun l -> clip (String.concat " " (List.map show_report l))) rs reps)
   | "chart" -> handle_chart_case c
+  | "copy" ->
+    let start = next_z c in
+    let end_ = next_z c in
+    let pair c = let n = next_bytes c in let d = next_bytes c in (n, d) in
+    let src = next_list c pair in
+    let dst = next_list c pair in
+    let status = next c in
+    let after = next_list c pair in
+    let expect = copy_range (fun b -> b) src dst start end_ in
+    let srt l = List.sort Stdlib.compare l in
+    let show l = clip (String.concat " " (List.map (fun (n, d) -> string_of_bytes n ^ "=" ^ tok_of_bytes d) l)) in
+    if status <> "ok" then diff "copy-status" ~model:"ok" ~impl:status;
+    check_eq "copy-destination" show (srt expect) (srt after);
+    (* the property of the range: every source object of every day from start to end inclusive arrives *)
+    let s_i = int_of_z start and e_i = int_of_z end_ in
+    List.iter (fun (n, d) ->
+        let rec inrange i = i <= e_i && (has_prefix n (fmt_date (z_of_int i)) || inrange (i + 1)) in
+        if inrange s_i && List.assoc_opt n after <> Some d then
+          prop "copy-covers-range" (Printf.sprintf "range %s..%s: source object %s is %s in the destination"
+                                      (string_of_bytes (fmt_date start)) (string_of_bytes (fmt_date end_)) (string_of_bytes n)
+                                      (match List.assoc_opt n after with None -> "missing" | Some _ -> "different"))) src
   | "badrange" ->
     let start = next_z c in
     let end_ = next_z c in
